@@ -2,8 +2,9 @@
 
 ENUM (deviation-bounded) + gfortran vs CPython/numpy differential.  A template kernel (stand-alone SUBROUTINE
 over scalars and arrays, kinds real32/real64, as in loki/backend/tests/test_pygen.py) is assembled from
-*feature blocks*; every combination of <= d blocks (d=1 quick, d=2 thorough) added to the base kernel is
-translated with FortranPythonTransformation(suffix='_py') in two variants (invert_indices False / True), the
+*feature blocks*; every single block (quick) and in addition every pair of *structural* blocks (thorough; see
+STRUCT: the blocks that change declarations, arrays, loops, substituted names or the returned scalars, 32 of the
+63) added to the base kernel is translated with FortranPythonTransformation(suffix='_py') in two variants (invert_indices False / True), the
 generated text is exec'd in-process and the function is called on 6 input sets.
 
 Ground truth: the original kernel is built with gfortran (-O0 -fcheck=bounds) behind a harness-owned driver
@@ -53,7 +54,7 @@ META = dict(
     engine='enum',
     technique='deviation-bounded exhaustive template enumeration x transformation variants; gfortran run of the original vs '
               'in-process execution of the generated Python on the same inputs',
-    level_text='all combinations of <= d transpile feature blocks x {invert_indices False, True}: the generated Python '
+    level_text='base kernel + every single feature block (+ every pair of structural blocks in thorough) x {invert_indices False, True}: the generated Python '
                'compiles, runs and returns integers/logicals equal to and reals within 2^-20 (kind 4) / 2^-40 (kind 8) of the '
                'gfortran results on 6 input sets; exhaustive for d',
     level_note='gfortran 12 -O0 -fcheck=bounds is the Fortran semantics, CPython 3.12 + numpy 2 the Python semantics; inputs of '
@@ -480,11 +481,37 @@ def build_sources(switches):
 XFORMS = [('f2py', dict(invert_indices=False)), ('f2py', dict(invert_indices=True))]
 
 
-def make_cases(d):
+# Structural switches change something the translation of *other* statements can depend on: declarations, array index
+# transformations (maps keyed by variable over the whole routine), loops and their index variables, associate /
+# parameter substitution, the list of returned scalars.  The remaining switches are statement-local: they add
+# assignments or branches over the fixed scalars and the slots e(:) / ie(:).
+STRUCT = {
+    'arr1d_index', 'arr1d_reverse', 'arr2d', 'arr2d_index_arith', 'arr3d', 'arr_lb_element', 'arr_lb_loop', 'arr_lb_2d',
+    'arr_real32', 'local_array', 'local_array_2d', 'local_int_array', 'local_array_lb', 'slice_full', 'slice_section',
+    'slice_lb', 'slice_shift_inplace', 'slice_stride', 'slice_whole',
+    'loop_index_value', 'loop_neg_step', 'loop_step2', 'loop_neg_step2', 'loop_var_step', 'loop_after_value',
+    'loop_zero_trip', 'loop_bounds_expr', 'while_loop', 'logical_literal',
+    'param_local', 'assoc_local', 'scalar_out',
+}
+
+
+def switch_sets(d):
+    """every set of <= d switches, smallest first: all single switches, and for two or more switches every
+    combination of *structural* switches (see STRUCT)."""
     names = [k for k in B if k != 'base']
+    assert STRUCT <= set(names), STRUCT - set(names)
+    for dev in deviations({k: [True] for k in names}, min(d, 1)):
+        yield [k for k in names if k in dev]
+    if d >= 2:
+        snames = [k for k in names if k in STRUCT]
+        for dev in deviations({k: [True] for k in snames}, d):
+            if len(dev) >= 2:
+                yield [k for k in snames if k in dev]
+
+
+def make_cases(d):
     cases = []
-    for dev in deviations({k: [True] for k in names}, d):
-        sw = [k for k in names if k in dev]
+    for sw in switch_sets(d):
         sources, driver = build_sources(sw)
         for xf, opts in XFORMS:
             oid = ','.join(f'{k}={v}' for k, v in sorted(opts.items()))
@@ -707,6 +734,10 @@ def sigfn(results_by_id):
     def sig(case, r):
         xf = case['id'].split('|', 1)[1]
         fam = case['xform']
+        base = results_by_id.get(f'base|{xf}')
+        if base and base['verdict'] == r['verdict']:
+            # the base kernel itself fails this way: every program containing it inherits the signature
+            return f'{r["verdict"]} block=<base> xform={fam}'
         for sw in case['switches']:
             single = results_by_id.get(f'base+{sw}|{xf}')
             if single and single['verdict'] == r['verdict']:
@@ -731,14 +762,21 @@ def run(ctx):
         for i, r in zip(glist[g], rs):
             results[i] = r
     by_id = {r['id']: r for r in results}
-    xform.summarise(ctx, cases, results, sigfn(by_id))
+    xform.summarise(ctx, cases, results, sigfn(by_id), min_changed=0)
+    nok = sum(1 for r in results if r['verdict'] == 'ok')
+    # vacuity guard; when (nearly) everything fails the violations are the message, not a harness error
+    ctx.require(nok >= len(cases) // 2 or ctx.violations, f'vacuous: only {nok} of {len(cases)} programs were transpiled and agreed')
     nb = len(B) - 1
+    judged = sum(1 for r in results if r['verdict'] in ('ok', 'output-differs', 'xform-run-error', 'xform-compile-error'))
     ctx.cov.update(
-        exhaustive=True, bound=dict(max_blocks=d, blocks=nb, xforms=len(XFORMS), input_sets=6),
+        distinct_nontrivial=judged, agreed=nok,
+        exhaustive=True, bound=dict(max_blocks=d, blocks=nb, structural_blocks=len(STRUCT), xforms=len(XFORMS), input_sets=6),
         programs=len(glist),
-        rule=f'all combinations of <= {d} of {nb} feature blocks added to the base kernel x {len(XFORMS)} variants '
-             '(invert_indices False/True); 6 input sets per run; non-trivial = Python was generated, loaded, ran on all input '
-             'sets and every output agreed with the gfortran run',
+        rule=f'base kernel + every single one of {nb} feature blocks' + (f' + every pair of the {len(STRUCT)} structural blocks'
+                                                                          if d >= 2 else '') +
+             f' x {len(XFORMS)} variants '
+             '(invert_indices False/True); 6 input sets per run; non-trivial = Python was generated and judged by loading and running '
+             'it on all input sets (`agreed` = those whose every output agreed with the gfortran run)',
         samples=[dict(id=cases[0]['id']), dict(id=cases[-1]['id'], text=cases[-1]['sources'][-1][1])],
     )
     ctx.assumptions += ['gfortran -O0 -fcheck=bounds defines the Fortran behaviour; CPython 3.12 / numpy 2 the Python behaviour',
